@@ -75,6 +75,9 @@ def gen_channel(rng, bnodes):
         ch["parts"] = rng.randint(2, 3)
     ch["split_seed"] = rng.randrange(1 << 20)
     ch["turtle_grouped"] = rng.random() < 0.7
+    if tr == "zip" and rng.random() < 0.5:
+        # members stored under folders of the archive (zip -r / shutil.make_archive layout), no directory entries
+        ch["member_dirs"] = [rng.choice(["", "data/", "data/more/", "x/"]) for _ in range(4)]
     return ch
 
 
@@ -82,7 +85,7 @@ def generate(rng, tier, index):
     bnodes = rng.random() < 0.25
     schema = rng.random() < 0.3
     n_nodes = rng.choice([3, 4, 6, 8]) if tier == "quick" else rng.choice([3, 4, 6, 8, 12, 20])
-    kinds = ("node", "str", "int", "lang", "date", "iri")
+    kinds = ("node", "str", "int", "lang", "date", "iri", "iri2")
     if schema:
         triples = gen.gen_schema_graph(rng, n_nodes=n_nodes, n_classes=rng.randint(1, 3), n_props=rng.randint(1, 4), bnodes=bnodes)
     else:
@@ -162,7 +165,7 @@ def build_channel(sim, triples, ch, tag):
         p = sim.path("%s.zip" % tag)
         with zipfile.ZipFile(p, "w") as z:
             for i, d in enumerate(docs):
-                z.writestr("m%d.%s" % (i, ext), d)
+                z.writestr((ch.get("member_dirs") or [""] * 4)[i % 4] + "m%d.%s" % (i, ext), d)
         kw["compression_mode"] = "zip"
         kw["graph_file_input"] = p
     elif tr == "zips":
@@ -247,6 +250,23 @@ def execute(scen, scratch):
             uniq.append(v)
     out = finish(sim, uniq, verdicts, len(nontrivial) > 0, runs, [ref.text] if ref.kind == "ok" else [])
     out["extra"] = {"nontrivial_channels": len(nontrivial)}
+    return out
+
+
+def extra_scenarios(tier, base):
+    """layout sweep: documents of ~130 KB in which a line ends exactly at 4096, 8192, ... 131072 bytes, delivered
+    through every line-oriented transport (a chunked / buffered reader must not lose or glue statements there)"""
+    out = []
+    n = 1 if tier == "quick" else 12
+    for k in range(n):
+        for fmt in ("nt", "tsv_spo"):
+            rng = random.Random("C08-layout:%s:%s:%s" % (base, k, fmt))
+            triples = gen.gen_aligned_graph(rng, fmt=fmt, n_classes=rng.randint(2, 6))
+            channels = [{"transport": tr, "format": fmt, "parts": 1, "split_seed": 0, "turtle_grouped": False}
+                        for tr in ("file", "gz", "xz", "zip", "zips", "raw")]
+            out.append(("layout-%s-%d" % (fmt, k), {
+                "graph": gen.L(triples), "ordered": True, "bnodes": False, "target": {"all_classes_mode": True},
+                "options": {"instances_report_mode": "mixed"}, "ns": dict(gen.BASE_NS), "channels": channels}))
     return out
 
 
